@@ -251,7 +251,7 @@ def scenario(reactor, inp):
             for t in threads:
                 t.join()
             complete = done.wait(5.0 if errors else watchdog)
-            complete_r = complete and done_r.wait(R_WATCHDOG_S)
+            complete_r = complete and done_r.wait(R_WATCHDOG_S + K * M / 1000.0)
         finally:
             inj.stop()
         with lock:
@@ -602,7 +602,7 @@ def judge(ctx, name, out):
         if rd["n_lost"]:
             ctx.violation("call-lost", "a callFromThread call issued before its thread's last call never ran", dict(base, lost=rd["lost"], n=rd["n_lost"]))
         if not rd["complete_r"]:
-            ctx.inconclusive("C13 %s: round K=%d M=%d: last re-entrant call did not run within %ds" % (name, rd["K"], rd["M"], R_WATCHDOG_S))
+            ctx.inconclusive("C13 %s: round K=%d M=%d: last re-entrant call did not run within its watchdog" % (name, rd["K"], rd["M"]))
         elif rd["n_lost_r"]:
             ctx.violation("reentrant-call-lost", "a callFromThread call issued from the reactor thread (inside another such call) never ran",
                           dict(base, lost=rd["lost_r"], n=rd["n_lost_r"]))
